@@ -802,8 +802,13 @@ func (it *Interp) condWithPre(fc *fctx, cond ast.Expr, st State) []condFork {
 
 func (it *Interp) forStmt(fc *fctx, x *ast.ForStmt, in []State) flow {
 	// counted loop over the handler's open-group counter: `for i := 0; i < X.open; i++ { … }` or counting down from it
-	if it.openCountLoop(x) {
-		return it.openCounted(fc, x.Pos(), x.Body, in)
+	if isOpen, k := it.openCountLoop(x); isOpen {
+		fl := it.openCounted(fc, x.Pos(), x.Body, in)
+		for ; k > 0; k-- { // `i < X.open + k` / `n := X.open + k`: k more runs of the body
+			r := it.block(fc, x.Body.List, fl.normal)
+			fl.normal = r.normal
+		}
+		return fl
 	}
 	var names []string
 	if as, ok := x.Init.(*ast.AssignStmt); ok {
@@ -873,22 +878,23 @@ func (it *Interp) openCountExpr(e ast.Expr) (bool, int) {
 }
 
 // openCountLoop: the loop runs exactly X.open times (X.open the handler's open-group counter) and its body does not
-// touch the loop variable: `for i := 0; i < X.open; i++`, `for n := X.open; n > 0; n--` (or `n != 0`).
-func (it *Interp) openCountLoop(x *ast.ForStmt) bool {
+// touch the loop variable: `for i := 0; i < X.open; i++`, `for n := X.open; n > 0; n--` (or `n != 0`); X.open + k
+// (k a small non-negative constant) in place of X.open makes it run k more times, which is what the int reports.
+func (it *Interp) openCountLoop(x *ast.ForStmt) (bool, int) {
 	if it.cfg.OpenField == nil {
-		return false
+		return false, 0
 	}
 	be, ok := x.Cond.(*ast.BinaryExpr)
 	if !ok {
-		return false
+		return false, 0
 	}
 	as, ok := x.Init.(*ast.AssignStmt)
 	if !ok || len(as.Lhs) != 1 || len(as.Rhs) != 1 {
-		return false
+		return false, 0
 	}
 	v, ok := as.Lhs[0].(*ast.Ident)
 	if !ok {
-		return false
+		return false, 0
 	}
 	isVar := func(e ast.Expr) bool { id, ok := e.(*ast.Ident); return ok && id.Name == v.Name }
 	isConst := func(e ast.Expr, k int64) bool {
@@ -936,15 +942,15 @@ func (it *Interp) openCountLoop(x *ast.ForStmt) bool {
 		return true
 	})
 	if touched {
-		return false
+		return false, 0
 	}
 	switch {
-	case step == 1 && isConst(as.Rhs[0], 0) && be.Op == token.LSS && isVar(be.X) && it.fieldOf(be.Y) == it.cfg.OpenField:
-		return true
-	case step == -1 && it.fieldOf(as.Rhs[0]) == it.cfg.OpenField && isVar(be.X) && isConst(be.Y, 0) && (be.Op == token.GTR || be.Op == token.NEQ):
-		return true
+	case step == 1 && isConst(as.Rhs[0], 0) && be.Op == token.LSS && isVar(be.X):
+		return it.openCountExpr(be.Y)
+	case step == -1 && isVar(be.X) && isConst(be.Y, 0) && (be.Op == token.GTR || be.Op == token.NEQ):
+		return it.openCountExpr(as.Rhs[0])
 	}
-	return false
+	return false, 0
 }
 
 // loop: zero or more iterations, least fixpoint over the finite state set.
